@@ -99,7 +99,7 @@ Quiet == UNCHANGED <<dist, nextId, nenv>>
 GScan ==
     \/ "scan" \in Modes /\ ScanStart /\ Rec([c |-> "scan"]) /\ Quiet
     \/ \E m \in Mailbox :
-          /\ Record => (m = NextBox /\ Todo # {} /\ ~cancelled)
+          /\ Record => (Todo # {} /\ m = NextBox /\ ~cancelled)
           /\ Visit(m) /\ Rec([c |-> "visit"]) /\ Quiet
     \/ ScanEnd /\ Rec([c |-> "end"]) /\ Quiet
 
